@@ -291,8 +291,9 @@ def run(ctx):
     ctx.corr["rule"] = ("evaluations = external calls executed on the EVM and compared with VyCore (status, return data, "
                         "ordered logs) summed over configurations, plus final raw storage per program/config; distinct = "
                         "distinct (program, calldata) pairs x configurations")
-    ctx.corr["features_outside_fragment"] = ["Bytes/String", "HashMap", "decimals", "flags", "external calls", "modules",
-                                             "default arguments", "raw_call/create", "** and shifts", "immutables/constructor"]
+    ctx.corr["features_outside_fragment"] = ["modules", "raw_call/create and the other environment builtins", "abi_encode/decode",
+                                             "external calls other than to the scripted callee", "@nonreentrant", "tuples",
+                                             "HashMap with Bytes/String keys", "sqrt/isqrt/uint256_addmod etc."]
     for it in items[:3]:
         c = it["calls"][0] if it["calls"] else None
         if c is not None:
